@@ -49,6 +49,8 @@ pub enum Step {
     Deliver { ex: u8, to: u8, src: Src, frame: Option<FrameMut> },
     /// crash + restart: reload from the durable bytes and evaluate `evals` times
     Restart { ex: u8, party: u8, evals: u8 },
+    /// corrupt the stored continuation / verify state bytes (codec checks only), then reload them
+    CorruptStore { ex: u8, party: u8, m: Mutation },
 }
 
 #[derive(Clone, Debug, Serialize, Deserialize, PartialEq)]
@@ -703,6 +705,34 @@ impl<'p, 'c, 'cc, V: SimVdaf<VK>, const VK: usize> WorldB<'p, 'c, 'cc, V, VK> {
         }
     }
 
+    /// At-rest corruption: the bytes are mutated and decoded through the monitors; the party then
+    /// keeps its in-memory state (the corrupted bytes are discarded), so no protocol oracle is
+    /// affected — this exists for the wire / decode monitors only.
+    fn corrupt_store(&mut self, ex: usize, party: usize, m: &Mutation) {
+        let ex = ex % self.setups.len();
+        let party = party % 2;
+        let v = self.vdaf;
+        self.ctx.fault("store_corrupt");
+        match &self.parties[ex][party].stage {
+            Stage::LeaderWait(sb) => {
+                let mut b = sb.clone();
+                raw_mut(&mut b, m);
+                let _ = mon_decode(self.ctx, "VerifyState", &b, b.len() + 4096, |x| v.dec_state(party, x), |s| V::enc_state(s), |s| V::state_len_hint(s));
+            }
+            Stage::Cont(cb) => {
+                let mut b = cb.clone();
+                raw_mut(&mut b, m);
+                if let Some(c) = mon_decode(self.ctx, "PingPongContinuation", &b, b.len() + 4096, |x| v.dec_cont(party, x), |c| V::enc_cont(c), |c| V::cont_len_hint(c)) {
+                    // a corrupted continuation that decodes must still evaluate without panicking
+                    if let Err(pv) = guard("PingPongContinuation::evaluate(corrupted store)", || c.evaluate(&self.plan.ctx.0, v).map(|_| ())) {
+                        self.ctx.fail(pv);
+                    }
+                }
+            }
+            _ => {}
+        }
+    }
+
     pub fn run(mut self) {
         for ex in 0..self.setups.len() {
             self.leader_init(ex);
@@ -715,6 +745,7 @@ impl<'p, 'c, 'cc, V: SimVdaf<VK>, const VK: usize> WorldB<'p, 'c, 'cc, V, VK> {
             match s {
                 Step::Deliver { ex, to, src, frame } => self.deliver(*ex as usize, *to as usize, src, frame),
                 Step::Restart { ex, party, evals } => self.restart(*ex as usize, *party as usize, *evals),
+                Step::CorruptStore { ex, party, m } => self.corrupt_store(*ex as usize, *party as usize, m),
             }
             if self.ctx.failed() {
                 return;
